@@ -64,6 +64,13 @@ def JT.ofB : BExpr String → JT
   | .and l r => .and (ofB l) (ofB r)
   | .or l r => .or (ofB l) (ofB r)
 
+def JT.constFree : JT → Bool
+  | .a _ => true
+  | .and l r => l.constFree && r.constFree
+  | .or l r => l.constFree && r.constFree
+  | .not x => x.constFree
+  | .c _ => false
+
 /-- evaluable by `CompletionEvaluator` as far as the whitelist allows today: names, and, or -/
 def JT.valid (t : JT) : Bool := t.positive && t.names.all isPyName
 
@@ -198,8 +205,11 @@ def judge (c : Case) (o : Json) : Verdict := Id.run do
       | .ok e => some (JT.ofB e)
       | _ => none
   let some t := tree? | return ⟨true, ""⟩
-  -- a valid completion expression over this task's outputs
-  if !(t.valid && t.names.all cvs.contains) then return ⟨true, ""⟩
+  -- an expression over this task's outputs ...
+  if !(t.names.all isPyName && t.names.all cvs.contains && t.constFree) then return ⟨true, ""⟩
+  -- ... that the evaluator takes: and/or always; anything else (`not`) only if the implementation
+  -- classified it instead of refusing it (then the classification is judged like any other)
+  if !t.positive && (jArr? ((jField? o "classify").getD Json.null)).isNone then return ⟨true, ""⟩
   if isUser && exprText.contains '-' then return ⟨true, ""⟩
   let key := if clash then "evaluator-kwarg-clash: " else ""
   -- (1) classification
